@@ -26,6 +26,10 @@ CLAIMED = {
    text="Theorems (Props/C06.v): for any scheme satisfying verify(pub sk, m, sign(sk,m)), an EncryptedLeaseSet signed as the library signs (0x05||content) and an OfflineSignature created as the library creates it verify. RouterInfo, LeaseSet, EncryptedLeaseSet (with/without offline keys) and OfflineSignature are built with the library's signing constructors from generated admissible arguments (options incl. empty values and short keys, 0..255 addresses, 0..16 leases) and verified before and after serialise+parse.",
    design="8/C06", technique="Coq proof (sign-then-verify under the scheme's correctness law) + constructor/verify/wire oracle on the implementation",
    note=NOTE_COMMON + "RouterInfo/LeaseSet sign-then-verify theorems need the composite round-trip lemmas and are decided by the oracle for now. Known finding D7 (NewLeaseSet2 placeholder signature) reported as KNOWN-FINDING."),
+ "C07": dict(
+   text="Theorems (Props/C07.v): two identities compare equal exactly when their serialisations are equal; base32 address and base64 form depend on the identity only through (the hash of) its bytes. On generated identities of every destination/router key-type pair (with and without extra certificate payload) Hash/IdentHash are compared with crypto/sha256 of the input bytes, the address with an independent bit-level base32, Base64 is decoded back, and single-byte differences in key, padding and certificate regions must change Equals, hash and address.",
+   design="8/C07", technique="Coq proof over executable model (hash external) + differential correspondence + independent SHA-256/base32 oracle",
+   note=NOTE_COMMON + "SHA-256 is external (an input of the model's address function); injectivity of hash/address is up to SHA-256 collisions."),
  "C09": dict(
    text="Theorems (Props/C09.v): for EVERY integer code the library's deny sets (regenerated from the Go source) equal the specification's; every Destination/RouterIdentity returned by the modelled readers/constructors carries only permitted types; permitted types are never denied. All known codes x all known codes (plus sampled unknown codes) are pushed through every API path that yields a Destination or RouterIdentity.",
    design="8/C09", technique="Coq proof by reflection over translator-regenerated deny tables + exhaustive path sweep",
@@ -42,10 +46,18 @@ CLAIMED = {
    text="Theorems (Props/C12.v) over the Gallina model of package data: encode/decode inverse for every width 1..8 and every value, rejection of out-of-domain arguments, fixed-width helpers, millisecond dates for every int64 >= 0, strings of every length <= 255 with any remainder, short-input behaviour of every reader, full 64-bit range of UintSafe. Unbounded quantifiers, kernel-checked; model tied to /repo by the regenerated constants and by running model and implementation on the same ~59k cases.",
    design="8/C12", technique="Coq proof over executable model + differential correspondence (extracted OCaml and in-Coq vm_compute) + translator-regenerated constants",
    note=NOTE_COMMON + "Go time.Unix/UnixMilli arithmetic is modelled (int64 wrap explicit), not verified."),
+ "C13": dict(
+   text="Theorems (Props/C13.v): digits/value inverse for any base; a full 3-byte (5-byte) group decodes back from its 4 (8) characters; every digit's character decodes to that digit and only alphabet characters decode at all; data after base32 padding is rejected; size-guarded variants reject empty and oversize input exactly at the limits and otherwise equal the unguarded functions. The decoders are modelled after encoding/base32|base64's control flow; model and implementation agree on ~92k cases incl. every byte value at every position of short encodings; encoders are compared with an independent bit-level encoder, exhaustively for inputs of length <= 2.",
+   design="8/C13", technique="Coq proof (arithmetic group codec, alphabet reflection, guards) + differential correspondence + independent bit-level encoder oracle",
+   note=NOTE_COMMON + "The whole-string round trip is stated (Definition) and decided by correspondence + oracle; Go's stdlib codecs are modelled, not verified. A truncated unpadded base32 quantum (1, 3 or 6 characters) is dropped silently by the stdlib and accepted (documented)."),
  "C15": dict(
    text="Theorems (Props/C15.v): published+expires exact for all 2^32 x 2^16 field values (Go's int64 Duration arithmetic modelled explicitly, no wrap); Lease / Lease2 / OfflineSignature / meta-entry conversions exact; NewLease2 stores in-range times exactly and rejects all others; newest/oldest expiration are members bounding all other leases; expired iff strictly past.",
    design="8/C15", technique="Coq proof (integer arithmetic with explicit int64 wrap) + differential correspondence + exactness oracle",
    note=NOTE_COMMON + "time.Time internals are modelled by (sec,nsec) arithmetic; IsExpired is checked against the wall clock at +-1 day only."),
+ "C17": dict(
+   text="Theorems (Props/C17.v): the validity helpers agree with the accessors; Host() succeeds only when the host option's content parses as an IP literal (model of net.ParseIP incl. the full IPv6 grammar, zones rejected); an IPv4 literal consists of digits and dots only; Port() returns the canonical decimal form of a number in 1..65535; IPVersion is the family of the returned address; option lookup returns the value of the first pair whose key content equals the requested key; StaticKey/IV have exactly 32/16 bytes. Hosts from literals, hostnames, zones, ports, whitespace; ports decimal/signed/padded/overflowing/non-numeric; prefix/extension keys; constructor and parser paths; compared with netip.ParseAddr as an independent reference.",
+   design="8/C17", technique="Coq proof over executable model of net.ParseIP/strconv.Atoi + differential correspondence + independent reference oracle",
+   note=NOTE_COMMON + "net.ParseIP / strconv.Atoi are modelled, not verified."),
  "C19": dict(
    text="Theorems (Props/C19.v): integer constructors identical; exact-length signature constructor accepts exactly what the reader consumes completely (all type codes); destination/router-identity readers are the generic reader plus filter; key certificate from bytes = from certificate after ReadCertificate. ~25 pairs of entry points are run on the same generated/mutated inputs and compared (acceptance, serialisation, remainder).",
    design="8/C19", technique="Coq proof over executable model + pairwise differential oracle on the implementation",
